@@ -381,6 +381,12 @@ func textHandler(args []string) (string, []string) {
 				}
 				valid = d.IsValid()
 				resp = "ok " + showDateV(d) + " valid=" + b01(valid)
+				saved := *d
+				d.Year, d.Month, d.Day = d.Year+77, 99, 99
+				if d2, e2 := lib.ParseDate(s); e2 != nil || *d2 != saved {
+					ps.add("C14", "parser=pdate text=%q parses to %s, but after the caller changed that result the same text parses to %s err=%v", s, showDateV(&saved), showDateV(d2), e2)
+				}
+				*d = saved
 			case "phms":
 				x, err := lib.ParseHMS(s)
 				if err != nil {
@@ -389,6 +395,12 @@ func textHandler(args []string) (string, []string) {
 				}
 				valid = x.IsValid()
 				resp = "ok " + showHMSv(x) + " valid=" + b01(valid)
+				saved := *x
+				x.Hour, x.Minute, x.Second = 97, 98, 99
+				if x2, e2 := lib.ParseHMS(s); e2 != nil || *x2 != saved {
+					ps.add("C14", "parser=phms text=%q parses to %s, but after the caller changed that result the same text parses to %s err=%v", s, showHMSv(&saved), showHMSv(x2), e2)
+				}
+				*x = saved
 			case "pdhms":
 				x, err := lib.ParseDHMS(s)
 				if err != nil {
@@ -405,6 +417,15 @@ func textHandler(args []string) (string, []string) {
 				}
 				valid = x.IsValid()
 				resp = "ok " + showDateV(x.Date) + " " + showHMSv(x.HMS) + " valid=" + b01(valid)
+				if x.Date != nil && x.HMS != nil {
+					sd, sh := *x.Date, *x.HMS
+					x.Date.Year, x.Date.Month, x.Date.Day = x.Date.Year+77, 99, 99
+					x.HMS.Hour, x.HMS.Minute, x.HMS.Second = 97, 98, 99
+					if x2, e2 := lib.ParseDateHMS(s); e2 != nil || x2.Date == nil || x2.HMS == nil || *x2.Date != sd || *x2.HMS != sh {
+						ps.add("C14", "parser=pdatehms text=%q parses to %s %s, but after the caller changed that result the same text parses differently (err=%v)", s, showDateV(&sd), showHMSv(&sh), e2)
+					}
+					*x.Date, *x.HMS = sd, sh
+				}
 			case "phmsrange":
 				x, err := lib.ParseHMSRange(s)
 				if err != nil {
@@ -413,6 +434,18 @@ func textHandler(args []string) (string, []string) {
 				}
 				valid = x.IsValid()
 				resp = "ok " + showHMSv(x.Start) + " " + showHMSv(x.End) + " valid=" + b01(valid)
+				if x.Start != nil && x.End != nil {
+					if x.Start == x.End {
+						ps.add("C14", "parser=phmsrange text=%q: start and end of the range are the same object", s)
+					}
+					ss, se := *x.Start, *x.End
+					x.Start.Hour, x.Start.Minute, x.Start.Second = 97, 98, 99
+					x.End.Hour, x.End.Minute, x.End.Second = 96, 95, 94
+					if x2, e2 := lib.ParseHMSRange(s); e2 != nil || x2.Start == nil || x2.End == nil || *x2.Start != ss || *x2.End != se {
+						ps.add("C14", "parser=phmsrange text=%q parses to %s %s, but after the caller changed that result the same text parses differently (err=%v)", s, showHMSv(&ss), showHMSv(&se), e2)
+					}
+					*x.Start, *x.End = ss, se
+				}
 			case "pdatelist":
 				l, err := lib.ParseDateList(s)
 				if err != nil {
